@@ -17,7 +17,34 @@ class Loop(object):
   pass
 
 _WLEN_CODE = {}
+def _split_slice_unpacks (fn):
+  """`a, b = BUF[x:x+2]` (two header bytes taken at once) is `a = BUF[x]; b = BUF[x+1]` for the rules below, which read single
+  byte accesses; done once per function node, in place"""
+  if getattr(fn, '_pxa_split_done', False): return
+  fn._pxa_split_done = True
+  for n in ast.walk(fn):
+    for fld in ('body', 'orelse', 'finalbody'):
+      blk = getattr(n, fld, None)
+      if not isinstance(blk, list): continue
+      for i, st in enumerate(list(blk)):
+        if isinstance(st, ast.Assign) and len(st.targets) == 1 and isinstance(st.targets[0], ast.Tuple) and all(isinstance(e, ast.Name) for e in st.targets[0].elts) \
+           and isinstance(st.value, ast.Subscript) and isinstance(st.value.slice, ast.Slice) and st.value.slice.step is None and st.value.slice.lower is not None and st.value.slice.upper is not None:
+          lo, hi = st.value.slice.lower, st.value.slice.upper
+          a = q.lin_terms(lo); b = q.lin_terms(hi)
+          k = len(st.targets[0].elts)
+          if a is None or b is None or a[0] != b[0] or b[1] - a[1] != k: continue
+          new = []
+          for j, e in enumerate(st.targets[0].elts):
+            idx = lo if j == 0 else ast.BinOp(left=lo, op=ast.Add(), right=ast.Constant(value=j))
+            if j and isinstance(lo, ast.BinOp) and isinstance(lo.op, ast.Add) and isinstance(lo.right, ast.Constant): idx = ast.BinOp(left=lo.left, op=ast.Add(), right=ast.Constant(value=lo.right.value + j))
+            elif j and isinstance(lo, ast.Constant): idx = ast.Constant(value=lo.value + j)
+            new.append(ast.copy_location(ast.Assign(targets=[ast.Name(id=e.id, ctx=ast.Store())], value=ast.Subscript(value=st.value.value, slice=idx, ctx=ast.Load()), lineno=st.lineno), st))
+          pos = blk.index(st); blk[pos:pos + 1] = new
+          q._cfgs.pop(id(fn), None)          # a CFG built before the split is stale
+  ast.fix_missing_locations(fn)
+
 def find_loop (repo, func):
+  _split_slice_unpacks(func.node)
   g = q.cfg_of(func)
   fn = func.node
   cand = []
@@ -124,6 +151,19 @@ def _wlen_expr (v):
        and isinstance(l.left, ast.Subscript) and isinstance(r, ast.Subscript) and norm(l.left.value) == norm(r.value) \
        and not isinstance(l.left.slice, ast.Slice):
       return (l.left.value, l.left.slice, r.slice)
+  # int.from_bytes(BUF[a:a+2], 'big')  -> (BUF, a, a+1): the same two bytes, most significant first
+  if isinstance(v, ast.Call) and isinstance(v.func, ast.Attribute) and v.func.attr == 'from_bytes' and norm(v.func.value) == 'int' and v.args and isinstance(v.args[0], ast.Subscript) \
+     and isinstance(v.args[0].slice, ast.Slice) and v.args[0].slice.lower is not None and v.args[0].slice.upper is not None and v.args[0].slice.step is None:
+    order = v.args[1] if len(v.args) > 1 else next((k_.value for k_ in v.keywords if k_.arg == 'byteorder'), None)
+    signed = next((k_.value for k_ in v.keywords if k_.arg == 'signed'), None)
+    lo, hi = v.args[0].slice.lower, v.args[0].slice.upper
+    a = q.lin_terms(lo); b = q.lin_terms(hi)
+    if isinstance(order, ast.Constant) and order.value == 'big' and (signed is None or (isinstance(signed, ast.Constant) and signed.value is False)) and a is not None and b is not None and a[0] == b[0] and b[1] - a[1] == 2:
+      second = ast.BinOp(left=lo, op=ast.Add(), right=ast.Constant(value=1))
+      if isinstance(lo, ast.BinOp) and isinstance(lo.op, ast.Add) and isinstance(lo.right, ast.Constant):
+        second = ast.BinOp(left=lo.left, op=ast.Add(), right=ast.Constant(value=lo.right.value + 1))
+      elif isinstance(lo, ast.Constant): second = ast.Constant(value=lo.value + 1)
+      return (v.args[0].value, lo, second)
   return None
 
 def avail_lower_bound (L, node):
@@ -139,6 +179,14 @@ def avail_lower_bound (L, node):
       if _is_avail(L, a):
         if op == '>=': best = max(best, k)
         elif op == '>': best = max(best, k + 1)
+  # the same bound written another way round (`CUR + 8 <= len(BUF)`): linear form len(BUF) - CUR - k >= 0
+  al = _aliases(L)
+  tgt = {('len(%s)' % L.buf): 1}
+  if L.cur: tgt[L.cur] = -1
+  for l, o, r, b in q.guard_facts(g, node):
+    if r is None: continue
+    ff = q.fact_as_ge0(l, o, r, al)
+    if ff is not None and ff[0] == tgt: best = max(best, -ff[1])
   return best
 
 def _is_avail (L, e):
